@@ -1,6 +1,7 @@
 package core
 
 import (
+	"errors"
 	"fmt"
 
 	jschema "github.com/jsightapi/jsight-schema-go-library"
@@ -47,8 +48,25 @@ func (f *usedUserTypeFetcher) fetch(ut jschema.Schema) error {
 		f.alreadyProcessed[t] = struct{}{}
 		f.usedUserTypes = append(f.usedUserTypes, t)
 		if err := f.fetch(f.userTypes.GetValue(t)); err != nil {
-			return fmt.Errorf("process type %q: %w", t, err)
+			var ue *usedUserTypeError
+			if errors.As(err, &ue) {
+				return err // found deeper: keep the type in which it was found
+			}
+			return &usedUserTypeError{typeName: t, err: err}
 		}
 	}
 	return nil
 }
+
+// usedUserTypeError is an error found while processing the used user type
+// typeName: positions inside it are relative to the body of that type.
+type usedUserTypeError struct {
+	err      error
+	typeName string
+}
+
+func (e *usedUserTypeError) Error() string {
+	return fmt.Sprintf("process type %q: %s", e.typeName, e.err)
+}
+
+func (e *usedUserTypeError) Unwrap() error { return e.err }
